@@ -107,6 +107,10 @@ func (p *P0x9208) String() string {
 
 func (p *P9208AlarmSign) parse(data []byte) {
 	idLen := p.getTerminalIDLen()
+	if len(data) < idLen+8 {
+		// 数据长度不满足当前主动安全标准的报警标识 不解析
+		return
+	}
 	p.TerminalID = string(bytes.Trim(data[:idLen], "\x00"))
 	p.Time = utils.BCD2Time(data[idLen : idLen+6])
 	p.SerialNumber = data[idLen+6]
